@@ -1,0 +1,77 @@
+//go:build verif
+
+package stake
+
+import (
+	"github.com/rigochain/rigo-go/types"
+	"github.com/rigochain/rigo-go/types/xerrors"
+)
+
+// VerifDelegateesAt returns every delegatee committed at `height` (read-only; verification harness).
+func (ctrler *StakeCtrler) VerifDelegateesAt(height int64) ([]*Delegatee, xerrors.XError) {
+	ctrler.mtx.RLock()
+	defer ctrler.mtx.RUnlock()
+
+	immu, xerr := ctrler.delegateeLedger.ImmutableLedgerAt(height, 0)
+	if xerr != nil {
+		return nil, xerr
+	}
+	var ret []*Delegatee
+	xerr = immu.IterateReadAllItems(func(d *Delegatee) xerrors.XError {
+		ret = append(ret, d)
+		return nil
+	})
+	return ret, xerr
+}
+
+// VerifFrozenAt returns every unbonding stake committed at `height`.
+func (ctrler *StakeCtrler) VerifFrozenAt(height int64) ([]*Stake, xerrors.XError) {
+	ctrler.mtx.RLock()
+	defer ctrler.mtx.RUnlock()
+
+	immu, xerr := ctrler.frozenLedger.ImmutableLedgerAt(height, 0)
+	if xerr != nil {
+		return nil, xerr
+	}
+	var ret []*Stake
+	xerr = immu.IterateReadAllItems(func(s *Stake) xerrors.XError {
+		ret = append(ret, s)
+		return nil
+	})
+	return ret, xerr
+}
+
+// VerifRewardsAt returns every reward record committed at `height`.
+func (ctrler *StakeCtrler) VerifRewardsAt(height int64) ([]*Reward, xerrors.XError) {
+	ctrler.mtx.RLock()
+	defer ctrler.mtx.RUnlock()
+
+	immu, xerr := ctrler.rewardLedger.ImmutableLedgerAt(height, 0)
+	if xerr != nil {
+		return nil, xerr
+	}
+	var ret []*Reward
+	xerr = immu.IterateReadAllItems(func(r *Reward) xerrors.XError {
+		ret = append(ret, r)
+		return nil
+	})
+	return ret, xerr
+}
+
+// VerifValidator is one entry of the in-memory validator list last announced to consensus.
+type VerifValidator struct {
+	Addr  types.Address
+	Power int64
+}
+
+// VerifLastValidators returns the in-memory list of validators last announced to consensus.
+func (ctrler *StakeCtrler) VerifLastValidators() []VerifValidator {
+	ctrler.mtx.RLock()
+	defer ctrler.mtx.RUnlock()
+
+	var ret []VerifValidator
+	for _, v := range ctrler.lastValidators {
+		ret = append(ret, VerifValidator{Addr: v.Addr, Power: v.TotalPower})
+	}
+	return ret
+}
